@@ -1,12 +1,19 @@
-/-! Model of `optimalPartition`, `backtracking`, `backward`, `optimalSegmentation` (algo/segmentation.py)
-and of `optimalSimplification` / the two "free" modes of `simplify` (algo/simplification.py).
+/-! Model of `optimalPartition`, `backtracking`, `backward`, `optimalSegmentation`, `findStopsGlobal`'s reward matrix
+(algo/segmentation.py) and of `optimalSimplification` / `simplify`'s modes 4–8 (algo/simplification.py, as of b8f1113:
+parameter and direction forwarded).
 
-Two forms:
-* the *table* form (`optimalPartition`, run by the driver) mirrors the Python line by line: `N = rows − 1`,
-  tables `D`, `M` initialised on the upper triangle, filled in place by increasing diagonals, both
+`optimalPartition` has two forms:
+* the *table* form (`optimalPartition`, run by the driver on arrays: `Model/PartitionArr.lean`) mirrors the Python line by
+  line: `N = rows − 1`, tables `D`, `M` initialised on the upper triangle, filled in place by increasing diagonals, both
   direction tests as written, `backward`/`backtracking` on `M`;
 * the *function* form (`opt`, fuel-indexed interval recursion with the strict scan) is what the optimality
   lemmas are proved about; `Lemmas/PartitionTable.lean` proves the two equal.
+
+The front ends (second half of the file) are modelled from the caller's arguments down to the call of
+`optimalPartition`: the call protocol of the user's cost function (`CostFn`: three / four parameters, default value, not
+callable; `glob_param is None` selects the three-argument call, EVERY other value is passed), the loops that fill the
+matrix (in place, loop form, with `findStopsGlobal`'s `break`), `C + C.T`, degenerate track sizes and the exceptions.
+Geometry (`minCircle`, distances, timestamps, the built-in cost functions of `simplify`) enters as parameters.
 
 `better a b` is the strict test of the selected direction (`a < b` to minimise, `a > b` to maximise).
 Core Lean only; polymorphic in the scalar (`Rat`/`Int` and `Float` in the driver, an ordered monoid in the proofs). -/
@@ -103,29 +110,199 @@ def pathCost (zero : α) (C : Nat → Nat → α) : List Nat → α
   | a :: b :: rest => C a b + pathCost zero C (b :: rest)
   | _ => zero
 
-/-! ## front ends -/
+/-! ## front ends
 
-/-- the matrix built by `optimalSegmentation` for a track of `size` observations:
-`C = zeros((size,size)); for i in range(size-2): for j in range(i, size-1): C[i,j] = cost(track, i, j-1)`
-then `C = C + C.T`. `cost i e` stands for `cost(track, i, e[, glob_param])` with `e = j − 1` (an `Int`: `j = i = 0` gives −1). -/
+`optimalSegmentation(track, cost, glob_param, mode)`, `optimalSimplification(track, cost, eps, mode)`,
+`simplify(track, tolerance, mode)` for the modes that delegate to them, and `findStopsGlobal`: everything between the
+caller's arguments and the call of `optimalPartition` — how the user's cost function is called (with or without the
+global parameter), which cells of the matrix receive a cost, what is on and below the diagonal, the symmetric fill. -/
+
+/-- the exceptions a call on this path can end with -/
+inductive Err where
+  /-- `TypeError`: the cost function is called with a number of arguments it does not accept -/
+  | type
+  /-- `IndexError`: `backward` indexes an empty table (track of one observation) -/
+  | index
+  /-- `ValueError`: `np.zeros((-1, -1))` (empty track) -/
+  | value
+  deriving DecidableEq, Repr
+
+/-- A user cost function, as far as Python's call protocol is concerned. `γ` is the type of the global parameter,
+`i` the first index, `e : Int` the last index of the segment (`optimalSegmentation` passes `j − 1`, which is `−1` for
+`i = j = 0`). -/
+inductive CostFn (γ α : Type) where
+  /-- `def cost(track, i, j)` -/
+  | three (f : Nat → Int → α)
+  /-- `def cost(track, i, j, p)` -/
+  | four (f : Nat → Int → γ → α)
+  /-- `def cost(track, i, j, p=d)` (also `def cost(track, i, j, *rest)` reading `rest[0]` when present) -/
+  | fourD (f : Nat → Int → γ → α) (d : γ)
+  /-- not callable with three or four positional arguments at all (a number given where a function is expected) -/
+  | notCallable
+
+namespace CostFn
+variable {γ : Type}
+/-- `cost(track, i, e)` -/
+def call3 : CostFn γ α → Nat → Int → Except Err α
+  | three f, i, e => .ok (f i e)
+  | four _, _, _ => .error .type
+  | fourD f d, i, e => .ok (f i e d)
+  | notCallable, _, _ => .error .type
+
+/-- `cost(track, i, e, g)` -/
+def call4 : CostFn γ α → Nat → Int → γ → Except Err α
+  | three _, _, _, _ => .error .type
+  | four f, i, e, g => .ok (f i e g)
+  | fourD f _, i, e, g => .ok (f i e g)
+  | notCallable, _, _, _ => .error .type
+end CostFn
+
+/-- the call written in `optimalSegmentation`'s loop body:
+`if glob_param is None: cost(track, i, j-1)  else: cost(track, i, j-1, glob_param)`.
+The test is `is None`: every other value — `0`, `0.0`, `False`, an empty tuple — is handed to the cost function. -/
+def segCall {γ : Type} (c : CostFn γ α) (glob : Option γ) (i : Nat) (e : Int) : Except Err α :=
+  match glob with
+  | none => c.call3 i e
+  | some g => c.call4 i e g
+
+/-- the same as a total function of `(i, e)` when the protocol is accepted (it does not depend on `i`, `e`),
+`none` when every call raises `TypeError` -/
+def segCost {γ : Type} (c : CostFn γ α) (glob : Option γ) : Option (Nat → Int → α) :=
+  match c, glob with
+  | .three f, none => some f
+  | .fourD f d, none => some (fun i e => f i e d)
+  | .four f, some g => some (fun i e => f i e g)
+  | .fourD f _, some g => some (fun i e => f i e g)
+  | _, _ => none
+
+/-- `C = np.zeros((size, size)); for i in range(size-2): for j in range(i, size-1): C[i,j] = cost(track, i, j-1)`
+as the two nested loops with in-place assignment -/
+def segFill (zero : α) (size : Nat) (cost : Nat → Int → α) : Nat → Nat → α :=
+  loop 0 (size - 2) (fun i C => loop i (size - 1 - i) (fun j C => upd C i j (cost i ((j : Int) - 1))) C)
+    (fun _ _ => zero)
+
+/-- `C + np.transpose(C)` -/
+def addTranspose (C : Nat → Nat → α) : Nat → Nat → α := fun i j => C i j + C j i
+
+/-- the matrix handed to `optimalPartition` by `optimalSegmentation`, loop form -/
+def segMatrixL (zero : α) (size : Nat) (cost : Nat → Int → α) : Nat → Nat → α :=
+  addTranspose (segFill zero size cost)
+
+/-- the same matrix in closed form (`Lemmas/PartitionFront.lean`: equal to the loop form): the cells `i ≤ j` with
+`i < size − 2`, `j < size − 1` receive `cost(track, i, j−1)`, everything else stays `0`, then the transpose is added — so
+`C[i,j] = C[j,i] = cost(track, i, j−1)` for `i < j ≤ size−2`, the diagonal holds `2·cost(track, i, i−1)` (never read by
+`optimalPartition`), and the last row and column are `0` (outside the leading `N × N` block, `N = size − 1`). -/
 def segMatrix (zero : α) (size : Nat) (cost : Nat → Int → α) : Nat → Nat → α :=
   let C0 : Nat → Nat → α := fun i j => if i + 2 < size ∧ i ≤ j ∧ j + 1 < size then cost i ((j : Int) - 1) else zero
   fun i j => C0 i j + C0 j i
 
-/-- `optimalSegmentation(track, cost, glob_param, mode)` -/
+/-- `optimalSegmentation` once the cost function is a total function of `(i, e)` -/
 def optimalSegmentation (zero : α) (size : Nat) (cost : Nat → Int → α) (mode : Nat) : List Nat :=
   optimalPartition zero size (segMatrix zero size cost) mode
 
-/-- `optimalSimplification(track, cost, eps, mode)`: the `mode` argument is NOT forwarded (the code calls
-`optimalSegmentation(track, cost, eps)`), so the default MINIMIZE is always used; the result keeps the
-observations at the selected indices. -/
-def optimalSimplification {ω : Type} (zero : α) (obs : List ω) (cost : Nat → Int → α) (_mode : Nat) : List ω :=
-  (optimalSegmentation zero obs.length cost 0).filterMap (fun i => obs[i]?)
+/-- `optimalSegmentation(track, cost, glob_param, mode)` as called from Python, for a track of `size` observations.
+No call of `cost` happens for `size ≤ 2` (`range(size − 2)` is empty); for `size ≥ 3` the first call is
+`cost(track, 0, −1[, glob_param])` and a call protocol the function does not accept raises `TypeError` there.
+`size = 2` gives `[0, 0]` (one candidate), `size = 1` `IndexError`, `size = 0` `ValueError` (both inside
+`optimalPartition`). -/
+def optimalSegmentationPy {γ : Type} (zero : α) (size : Nat) (c : CostFn γ α) (glob : Option γ) (mode : Nat) :
+    Except Err (List Nat) :=
+  if size = 0 then .error .value
+  else if size = 1 then .error .index
+  else
+    match segCost c glob with
+    | some cost => .ok (optimalSegmentation zero size cost mode)
+    | none => if size = 2 then .ok (optimalSegmentation zero size (fun _ _ => zero) mode) else .error .type
 
-/-- `simplify(track, tolerance, mode)` for the two "free" modes: 7 = MODE_SIMPLIFY_FREE calls
-`optimalSimplification(track, tolerance, None, verbose)` (verbose lands in the ignored `mode` slot);
-8 = MODE_SIMPLIFY_FREE_MAXIMIZE passes five positional arguments to the four-parameter function: `TypeError` (`none`). -/
-def simplifyFree {ω : Type} (zero : α) (obs : List ω) (cost : Nat → Int → α) (mode : Nat) : Option (List ω) :=
-  if mode = 7 then some (optimalSimplification zero obs cost 1)
+/-- `optimalSimplification(track, cost, eps, mode)`: `segmentation = optimalSegmentation(track, cost, eps, mode, verbose)`
+(the direction IS forwarded since b8f1113), then the observations at the selected indices are copied in order. -/
+def optimalSimplificationPy {γ ω : Type} (zero : α) (obs : List ω) (c : CostFn γ α) (eps : Option γ) (mode : Nat) :
+    Except Err (List ω) :=
+  match optimalSegmentationPy zero obs.length c eps mode with
+  | .ok seg => .ok (seg.filterMap (fun i => obs[i]?))
+  | .error e => .error e
+
+/-- `simplify(track, tolerance, mode)` for the three built-in criteria that go through `optimalSimplification`:
+4 = MINIMIZE_LARGEST_DEVIATION, 5 = MINIMIZE_ELONGATION_RATIO, 6 = PRECLUDE_LARGE_DEVIATION. `builtin m` is the module's
+four-parameter cost function of mode `m` (`def __cost_…(track, i, j, offset)`, geometry not modelled: a parameter);
+`tolerance` is handed over as the global parameter (`None` included) and the direction is MINIMIZE. -/
+def simplifyBuiltin {γ ω : Type} (zero : α) (obs : List ω) (builtin : Nat → Nat → Int → γ → α) (tolerance : Option γ)
+    (smode : Nat) : Option (Except Err (List ω)) :=
+  if smode = 4 ∨ smode = 5 ∨ smode = 6 then
+    some (optimalSimplificationPy zero obs (CostFn.four (builtin smode)) tolerance 0)
   else none
+
+/-- `simplify(track, cost, mode)` for the two "free" modes: 7 = MODE_SIMPLIFY_FREE minimises, 8 =
+MODE_SIMPLIFY_FREE_MAXIMIZE maximises the user's function, called with three arguments (`eps = None`). -/
+def simplifyFree {γ ω : Type} (zero : α) (obs : List ω) (c : CostFn γ α) (smode : Nat) : Option (Except Err (List ω)) :=
+  if smode = 7 then some (optimalSimplificationPy zero obs c none 0)
+  else if smode = 8 then some (optimalSimplificationPy zero obs c none 1)
+  else none
+
+/-! ### stop detection (`findStopsGlobal`) -/
+
+/-- what the row loops of stop detection read from the track and its parameters (geometry and clock not modelled:
+parameters). The second index is the LAST observation of the segment, `e = j − 1`. `stopPredGlobal` below gives the three
+tests of `findStopsGlobal`; `findStopsGlobalForRTK` runs the same loops with `far` = `track[i].distanceTo(track[e]) > 3 *
+std_max`, `short` = `t_e − t_i <= duration`, `small` = `some (sqrt(var_x + var_y + var_z) < std_max)` and the final filter
+`C[a, b] != 0`. -/
+structure StopPred where
+  /-- first test of the loop body (`break`) -/
+  far : Nat → Nat → Bool
+  /-- second test of the loop body (`continue`) -/
+  short : Nat → Nat → Bool
+  /-- `none` when the size of the segment cannot be computed (`minCircle` returns `None`), else whether it is admitted -/
+  small : Nat → Nat → Option Bool
+
+/-- the three tests of `findStopsGlobal` as written since 026cb79 (inclusive boundaries, as documented):
+`track[i].distance2DTo(track[e]) > diameter` (break), `track[e].timestamp - track[i].timestamp < duration` (reward 0),
+`2 * cercle.radius <= diameter` (rewarded; written `¬ diameter < 2r`, the same for numbers that are not NaN).
+`dist i e`, `dur i e`, `circ i e` are the distance, the elapsed time and `2 * radius` of `minCircle` (`none` = `None`). -/
+def stopPredGlobal (dist dur : Nat → Nat → α) (circ : Nat → Nat → Option α) (diameter duration : α) : StopPred where
+  far := fun i e => decide (diameter < dist i e)
+  short := fun i e => decide (dur i e < duration)
+  small := fun i e => (circ i e).map (fun twoR => !decide (diameter < twoR))
+
+/-- value written by one passage through the body of the `j` loop that does not `break` -/
+def stopCell (zero : α) (sq : Nat → α) (p : StopPred) (i j : Nat) : α :=
+  if p.short i (j - 1) then zero
+  else match p.small i (j - 1) with
+    | some true => sq (j - i)
+    | _ => zero
+
+/-- the `j` loop of row `i`, with its `break`: state = (matrix, has the loop been left).
+```
+for j in range(i + 1, size - 1):
+    if far(i, j-1): C[i,j] = 0; break
+    if short(i, j-1): C[i,j] = 0; continue
+    cercle = minCircle(...);  C[i,j] = (2*radius < diameter) * (j-i)**2   (0 if None)
+``` -/
+def stopsRow (zero : α) (sq : Nat → α) (p : StopPred) (size i : Nat) (C : Nat → Nat → α) : (Nat → Nat → α) × Bool :=
+  loop (i + 1) (size - 1 - (i + 1)) (fun j st =>
+    if st.2 then st
+    else if p.far i (j - 1) then (upd st.1 i j zero, true)
+    else (upd st.1 i j (stopCell zero sq p i j), false)) (C, false)
+
+/-- `C = np.zeros((size, size)); for i in range(size - 2): …` -/
+def stopsFill (zero : α) (sq : Nat → α) (p : StopPred) (size : Nat) : Nat → Nat → α :=
+  loop 0 (size - 2) (fun i C => (stopsRow zero sq p size i C).1) (fun _ _ => zero)
+
+/-- the reward matrix handed to `optimalPartition`: `C + C.T` -/
+def stopsMatrix (zero : α) (sq : Nat → α) (p : StopPred) (size : Nat) : Nat → Nat → α :=
+  addTranspose (stopsFill zero sq p size)
+
+/-- the segmentation computed inside `findStopsGlobal`: `optimalPartition(C, MODE_SEGMENTATION_MAXIMIZE)` -/
+def stopsSegmentation (zero : α) (sq : Nat → α) (p : StopPred) (size : Nat) : List Nat :=
+  optimalPartition zero size (stopsMatrix zero sq p size) 1
+
+/-- consecutive pairs of an index list -/
+def pairs : List Nat → List (Nat × Nat)
+  | a :: b :: rest => (a, b) :: pairs (b :: rest)
+  | _ => []
+
+/-- the stops reported: the segments `[a, b)` of the segmentation that pass the final filter
+`not (C is None or C.radius > diameter/2 or portion.duration() < duration)`, as `(id_ini, id_end) = (a, b − 1)`.
+`keep a e` is that filter on `track.extract(a, e)`. -/
+def stopsReported (zero : α) (sq : Nat → α) (p : StopPred) (keep : Nat → Nat → Bool) (size : Nat) : List (Nat × Nat) :=
+  ((pairs (stopsSegmentation zero sq p size)).filter (fun ab => keep ab.1 (ab.2 - 1))).map (fun ab => (ab.1, ab.2 - 1))
 end TV.Partition
